@@ -34,7 +34,7 @@ PROPS = {
                      "selection that the transcription of the code equals: the sum over whole degenerate groups below the level (sea), the "
                      "n-th central difference of the sea on the extended grid (surface, n = 1..3; the stencils are exact on polynomials of "
                      "degree n+1), k-resolved summed = unresolved, CumDOS monotone / 0 below / num_wann above. A seeded stratified selection "
-                     "of the finished states (quick ~900 of ~3000) is executed on the real calculators (scalar additive, non-additive and "
+                     "of the finished states (quick ~950 of ~3700) is executed on the real calculators (scalar additive, non-additive and "
                      "rank-1 synthetic formulas, use_factor on/off, real CumDOS / DOS / Identity also with select_bands) and compared with "
                      "the exact rational; random larger real calls are validated by TLC; one wb.run on a pythtb Haldane model compares "
                      "StaticCalculator(Formula, fder=n) with the central differences of fder=0 for the real Identity and Omega formulas "
@@ -317,12 +317,14 @@ def model_runs(thorough):
     """(name, constants, number of replays).  a = x - ASHIFT for x in AS1; odd a with Q = 2 and d = 4 puts consecutive levels on both
     sides of a group of two adjacent energies (NoLevelInsideGroup keeps those)"""
     if thorough:
-        return [("c13_nk1", dict(NK=1, NBS="{1, 2, 3, 4}", EMAX=4, THS="{0, 2}", QS="{2, 4}", AS1=tlaset([0, 11]), ASHIFT=5,
-                                 DS="{1, 6}", NS="{1, 3, 6}", SELS="{{}, {0}, {1, 2}, {0, 3}}", WrongBinning="FALSE"), 5000),
-                ("c13_nk1b", dict(NK=1, NBS="{1, 2, 3, 4}", EMAX=3, THS="{1}", QS="{2}", AS1=tlaset([1, 6, 11]), ASHIFT=4,
-                                  DS="{1, 4}", NS="{1, 4, 5}", SELS="{{}, {1}, {2, 3}}", WrongBinning="FALSE"), 2500),
-                ("c13_nk2", dict(NK=2, NBS="{1, 2, 3}", EMAX=2, THS="{0, 1}", QS="{2}", AS1=tlaset([1, 7]), ASHIFT=4,
-                                 DS="{1, 4}", NS="{1, 4}", SELS="{{}, {1}, {0, 2}}", WrongBinning="FALSE"), 4000)]
+        return [("c13_nk1", dict(NK=1, NBS="{1, 2, 3, 4}", EMAX=3, THS="{0, 2}", QS="{2}", AS1=tlaset([0, 11]), ASHIFT=5,
+                                 DS="{1, 4}", NS="{1, 4}", SELS="{{}, {0}, {1, 2}, {0, 3}}", WrongBinning="FALSE"), 4000),
+                ("c13_nk1b", dict(NK=1, NBS="{1, 2, 3, 4}", EMAX=3, THS="{1}", QS="{4}", AS1=tlaset([1, 6, 11]), ASHIFT=4,
+                                  DS="{2, 6}", NS="{1, 5}", SELS="{{}, {1}, {2, 3}}", WrongBinning="FALSE"), 2500),
+                ("c13_nk2", dict(NK=2, NBS="{1, 2}", EMAX=2, THS="{0, 1}", QS="{2}", AS1=tlaset([1]), ASHIFT=4,
+                                 DS="{1, 4}", NS="{1, 4}", SELS="{{}, {1}}", WrongBinning="FALSE"), 3000),
+                ("c13_nk2b", dict(NK=2, NBS="{3}", EMAX=1, THS="{0, 1}", QS="{2}", AS1=tlaset([1]), ASHIFT=4,
+                                  DS="{4}", NS="{1, 4}", SELS="{{}, {1}, {0, 2}}", WrongBinning="FALSE"), 1500)]
     return [("c13_nk1", dict(NK=1, NBS="{1, 2, 3}", EMAX=2, THS="{0, 1}", QS="{2}", AS1=tlaset([0, 5]), ASHIFT=3,
                              DS="{1, 4}", NS="{1, 4}", SELS="{{}, {0}, {1, 2}}", WrongBinning="FALSE"), 600),
             ("c13_nk2", dict(NK=2, NBS="{2}", EMAX=1, THS="{0, 1}", QS="{4}", AS1=tlaset([2]), ASHIFT=3,
@@ -483,7 +485,7 @@ def part_records(rep, thorough, rng):
         for k, v in stats.items():
             if v == 0:
                 raise MachineryError(f"vacuous record class {k}")
-    stv, bad = validate_parallel("FermiScanRec.tla", REC_CFG, recs, "c13", 3)
+    stv, bad = validate_parallel("FermiScanRec.tla", REC_CFG, recs, "c13", 2)
     rep.add_tlc("c13_records", stv)
     rep.add_traces(len(recs))
     rep.part("c13_records", **stats)
